@@ -129,7 +129,7 @@ func buildVocabulary() map[string]bool {
 			continue
 		}
 		b, _ := ruleSources.ReadFile(e.Name())
-		add(string(b))
+		add(stripLineComments(string(b))) // names that only occur in commentary are not vocabulary
 	}
 	for _, dir := range []string{"tables", "picks"} {
 		ents, _ := ruleSources.ReadDir(dir)
@@ -139,6 +139,19 @@ func buildVocabulary() map[string]bool {
 		}
 	}
 	return v
+}
+
+func stripLineComments(src string) string {
+	var sb strings.Builder
+	for _, l := range strings.Split(src, "\n") {
+		t := strings.TrimSpace(l)
+		if strings.HasPrefix(t, "//") && !strings.HasPrefix(t, "//go:") {
+			continue
+		}
+		sb.WriteString(l)
+		sb.WriteByte('\n')
+	}
+	return sb.String()
 }
 
 func isGeneratedFn(p *Program, fn *ssa.Function) bool {
